@@ -20,7 +20,9 @@ TRUSTED_BASE = [
     "Lean runtime Float operations: the glue of Spline.integrate is executed on the values FITPACK returned during the "
     "real call and must reproduce the result bit for bit",
     "scipy.integrate.quad as independent integrator for the property's own clause (1e-8)",
+    "translator tools/gen_formulas.py: the arithmetic of the named source functions (an expression, or a whole body of assignments, if and return) as Python's own `ast` parses it -> Lean terms over the carrier class in lean/FormulaTie/Gen*.lean; that each is the model's definition is re-checked by `rfl` / a short unfolding on every run (lean/FormulaTie/*.lean)",
 ]
+FORMULA_TIE = ('Spline',)
 ASSUMPTIONS = ["strictly increasing knots, at least 4; finite values"]
 RULE = ("4-12 strictly increasing knots with random spacing and values x limit pairs from {far below, straddling the "
         "low end, inside, straddling the high end, far above, equal, reversed, on a knot}; FITPACK's returned values "
